@@ -60,11 +60,15 @@ def units(tier):
         for case in sc.cases:
             us.append(('%s/%s' % (key, sc.case_name(case)), {'key': key, 'case': case, 'tier': tier}))
     us += [(n, dict(k, tier=tier, riemann=True)) for n, k in rk.units('C03', ['eos'], tier)]
+    us.append(('guderley', {'gud': True}))
     us.append(('ehep', {'ehep': True}))
     return us
 
 
-def run_unit(name, key=None, case=None, tier='quick', riemann=False, pat=None, fam=None, ehep=False):
+def run_unit(name, key=None, case=None, tier='quick', riemann=False, pat=None, fam=None, ehep=False, gud=False):
+    if gud:
+        from props import guderley_kit
+        return guderley_kit.unit('C03')
     if ehep:
         from props import ehep_kit
         return ehep_kit.unit('C03')
